@@ -493,6 +493,11 @@ func (s *Server) updateBlockHeader(ev UpdateExistedHeaderEvent) {
 		logging.Error("UpdateExistedHeader failed. Get UconValidators failed.", "Round", ev.Round, "RoundIndex", ev.RoundIndex, "err", err)
 		return
 	}
+	if ucValidators.RoundIndex != ev.RoundIndex {
+		// the votes were cast (and signed) in another round index than the one the block was committed
+		// in (it was locked earlier and committed later): they cannot be merged into this vote set
+		return
+	}
 	logging.Info("UpdateExistedHeader before.", "Round", ev.Round, "Chamber", len(chamberAddrs),
 		"House", len(houseAddrs))
 
